@@ -31,8 +31,9 @@ def grid(tier):
     vs = versions(tier)
     builds = vs + ["devel", "dev-main", "", "v1.2.3", "v0.1.0", "1", "1.2", "01.2.3", "vv1.2.3"]
     cfg = [("str", v) for v in vs]
-    malformed = [("str", x) for x in ["v1.2.3", "1.2", "1", "01.2.3", "1.2.3.4", "1.2.x", "", "latest", "1.2.3-", "1.2.3+", "1.2.3-01"]]
-    malformed += [("raw", x) for x in ["1.2", "1", "true", "null", "[1,2,3]", "{a: 1}", "~"]]
+    malformed = [("str", x) for x in ["v1.2.3", "1.2", "1", "01.2.3", "1.2.3.4", "1.2.x", "", "latest", "1.2.3-", "1.2.3+", "1.2.3-01",
+                                      " 1.2.3", "1.2.3 ", "1.02.3", "1.2.03", "V1.2.3", "1.2.3-a..b", "1.2.3+a..b", "1.2.3-\u00e9", "1.-2.3", "+1.2.3", "1.2.3\n", "1,2,3", "1.2.3-rc_1"]]
+    malformed += [("raw", x) for x in ["1.2", "1", "true", "null", "[1,2,3]", "{a: 1}", "~", "1.2.3", "'1.2.3'", "!!str 1.2.3", "0x1.2.3", "[\"1.2.3\"]", "{v: \"1.2.3\"}", "1e2", ".5"]]
     cases = []
     for B in builds:
         for kind, V in cfg + malformed:
@@ -145,13 +146,38 @@ def run(tier, seed, replay):
         else:
             out.broke("harness: case not decoded", rep)
     # which malformed versions must be parse errors: every "raw" non-string and every str that is not semver
-    bad_expected = {("str", x) for x in ["v1.2.3", "1.2.3.4", "1.2.x", "", "latest", "1.2.3-", "1.2.3+", "1.2.3-01", "01.2.3"]}
-    bad_expected |= {("raw", x) for x in ["1.2", "1", "true", "[1,2,3]", "{a: 1}"]}
+    bad_expected = {("str", x) for x in ["v1.2.3", "1.2.3.4", "1.2.x", "", "latest", "1.2.3-", "1.2.3+", "1.2.3-01", "01.2.3",   # "1.2" and "1" are x/mod/semver shorthands (= 1.2.0, 1.0.0): not demanded either way
+                                         " 1.2.3", "1.2.3 ", "1.02.3", "1.2.03", "V1.2.3", "1.2.3-a..b", "1.2.3+a..b", "1.2.3-\u00e9", "1.-2.3", "+1.2.3", "1.2.3\n", "1,2,3", "1.2.3-rc_1"]}
+    bad_expected |= {("raw", x) for x in ["1.2", "1", "true", "[1,2,3]", "{a: 1}", "[\"1.2.3\"]", "{v: \"1.2.3\"}", "1e2", ".5"]}
+    # ... and which must NOT be: every well-formed semantic version (with any suffix), however it is quoted
+    good_expected = {("str", v) for v in versions(tier)} | {("raw", x) for x in ["1.2.3", "'1.2.3'", "!!str 1.2.3"]}
+    for k, o in enumerate(obs):
+        B, kind, V = cases[k]
+        if (kind, V) in good_expected and "yaml_err" in (o.get("files") or {}).get("c.yaml", {}):
+            out.violation("parse-rejected:%s" % V, "well-formed semantic version %r is a parse error" % (V,),
+                          {"B": B, "kind": kind, "V": V, "real_exit": o.get("exit"), "yaml_err": o["files"]["c.yaml"]["yaml_err"]})
     for k, o in enumerate(obs):
         B, kind, V = cases[k]
         if (kind, V) in bad_expected and "yaml_err" not in (o.get("files") or {}).get("c.yaml", {}):
             out.violation("parse-accepted:%s" % V, "malformed version %r accepted by the YAML layer" % (V,),
                           {"B": B, "kind": kind, "V": V, "real_exit": o.get("exit")})
+    # the gate does not depend on the other flags
+    if not replay:
+        fl_cases = [(B, V) for B in ["1.2.3", "v1.2.3", "0.4.1", "devel"] for V in ["1.2.0", "1.3.0", "0.4.9", "0.5.0", "2.0.0", "1.2.3-rc.1+b"]]
+        FL = [{"quiet": True}, {"stub": True}, {"ignore_missing_params": True, "ignore_missing_services": True}, {"quiet": True, "stub": True, "ignore_missing_params": True, "ignore_missing_services": True}]
+        fspecs = []
+        for B, V in fl_cases:
+            for fl in [{}] + FL:
+                fspecs.append({"id": "f%d" % len(fspecs), "files": [{"path": "c.yaml", "content": yaml_of("str", V)}], "patterns": ["c.yaml"],
+                               "output": "out.go", "flags": fl, "version": B, "build_info": "x", "dump": False})
+        fobs = build.gx_run(tooldir, fspecs)
+        for j in range(0, len(fspecs), 1 + len(FL)):
+            base = fobs[j].get("exit")
+            for t in range(1, 1 + len(FL)):
+                if fobs[j + t].get("exit") != base:
+                    B, V = fl_cases[j // (1 + len(FL))]
+                    out.violation("gate:flags", "build %s, version %s: exit %s without flags, %s with %s" % (B, V, base, fobs[j + t].get("exit"), FL[t - 1]),
+                                  dict(fspecs[j + t], observed={"exit": fobs[j + t].get("exit"), "errors": fobs[j + t].get("errors")}))
     n_bin = 0
     if not replay:
         n_bin = linked_binaries(out, tooldir, env, tier)
@@ -196,12 +222,13 @@ def linked_binaries(out, tooldir, env, tier):
                 out.violation("gate:linked-no-version", "binary linked with version %s rejects a configuration that declares no version" % linked, {"linked": linked, "V": None, "stdout": p.stdout[-1500:]})
             # several files declaring a version: the last declaration is the configured one
             if linked in ("v1.2.3", "1.2.3"):
-                for V1, V2, want in [("1.2.0", "1.3.0", 1), ("1.3.0", "1.2.0", 0), ("2.0.0", "1.2.9", 0), ("1.1.0", "2.0.0", 1)]:
+                for V1, V2, want in [("1.2.0", "1.3.0", 1), ("1.3.0", "1.2.0", 0), ("2.0.0", "1.2.9", 0), ("1.1.0", "2.0.0", 1),
+                                     ("1.3.0", None, 1), ("1.2.0", None, 0), (None, "1.3.0", 1), (None, "1.1.0", 0), (None, None, 0)]:
                     d2 = os.path.join(tmp, "two")
                     shutil.rmtree(d2, ignore_errors=True)
                     os.makedirs(d2)
-                    open(os.path.join(d2, "10.yaml"), "w").write("version: \"%s\"\nparameters: {p: 1}\n" % V1)
-                    open(os.path.join(d2, "20.yaml"), "w").write("version: \"%s\"\nparameters: {q: 2}\n" % V2)
+                    open(os.path.join(d2, "10.yaml"), "w").write(("version: \"%s\"\n" % V1 if V1 else "") + "parameters: {p: 1}\n")
+                    open(os.path.join(d2, "20.yaml"), "w").write(("version: \"%s\"\n" % V2 if V2 else "") + "parameters: {q: 2}\n")
                     p = subprocess.run([binp, "build", "-i", os.path.join(d2, "*.yaml"), "-o", os.path.join(tmp, "o.go")], stdout=subprocess.PIPE, stderr=subprocess.PIPE, text=True, timeout=60)
                     n += 1
                     if p.returncode != want:
